@@ -122,7 +122,8 @@ def site_as_polyline():
         if isinstance(n, ast.Assign) and isinstance(n.targets[0], ast.Name) and n.targets[0].id == pts_name and isinstance(n.value, ast.Call) \
                 and isinstance(n.value.func, ast.Attribute) and n.value.func.attr == "linspace":
             a = n.value.args
-            if len(a) == 3 and isinstance(a[2], ast.Name) and a[2].id == "n_pts" and [getattr(x, "value", None) for x in a[:2]] == [0, 1]:
+            if len(a) == 3 and isinstance(a[2], ast.Name) and a[2].id == "n_pts" and [getattr(x, "value", None) for x in a[:2]] == [0, 1] \
+                    and not n.value.keywords:       # round 4: no `endpoint=False` / `dtype=int` / `retstep`
                 ok_lin = True
     if not ok_lin: raise TranslateError("default positions are not np.linspace(0,1,n_pts)")
     el = eloops[0]
@@ -321,16 +322,24 @@ def site_sample_aabb():
     tree, _ = T.load("mouette/sampling.py")
     fn = T.find_def(tree, "sample_AABB")
     _no_writes(fn, {"box"})
-    chain = [s for s in fn.body if isinstance(s, ast.If) and isinstance(s.test, ast.Compare) and ast.unparse(s.test).startswith("mode ==")]
+    def mode_const(test):
+        """`mode == "c"` or (round 4) the commuted `"c" == mode` -> "c" """
+        if isinstance(test, ast.Compare) and len(test.ops) == 1 and isinstance(test.ops[0], ast.Eq):
+            a, b = test.left, test.comparators[0]
+            if isinstance(b, ast.Name): a, b = b, a
+            if isinstance(a, ast.Name) and a.id == "mode":
+                if not (isinstance(b, ast.Constant) and isinstance(b.value, str)): raise TranslateError("mode compared with a non literal")
+                return b.value
+        return None
+    chain = [s for s in fn.body if isinstance(s, ast.If) and mode_const(s.test) is not None]
     if len(chain) != 1: raise TranslateError("mode dispatch `if mode==...` not found")
     top = chain[0]
     branches = {}
     node = top
     while True:
         key = ast.unparse(node.test)
-        if not (isinstance(node.test.comparators[0], ast.Constant)): raise TranslateError("mode compared with a non literal")
-        branches[node.test.comparators[0].value] = node.body
-        if len(node.orelse) == 1 and isinstance(node.orelse[0], ast.If) and ast.unparse(node.orelse[0].test).startswith("mode =="):
+        branches[mode_const(node.test)] = node.body
+        if len(node.orelse) == 1 and isinstance(node.orelse[0], ast.If) and mode_const(node.orelse[0].test) is not None:
             node = node.orelse[0]
         elif not node.orelse: break
         else: raise TranslateError(f"unexpected else branch after {key}")
@@ -357,9 +366,9 @@ def site_sample_aabb():
         return rets[0].value
     m, M_ = ast.unparse(prop_ret("mini")), ast.unparse(prop_ret("maxi"))
     sp = prop_ret("span")
-    if not (isinstance(sp, ast.BinOp) and isinstance(sp.op, ast.Sub) and {ast.unparse(sp.left), ast.unparse(sp.right)} <= {m, M_}):
+    nm = {m: "mini", M_: "maxi", "self.mini": "mini", "self.maxi": "maxi"}      # round 4: the corner properties may be used as well
+    if not (isinstance(sp, ast.BinOp) and isinstance(sp.op, ast.Sub) and {ast.unparse(sp.left), ast.unparse(sp.right)} <= set(nm)):
         raise TranslateError(f"AABB.span is not a difference of the corner attributes: {ast.unparse(sp)}")
-    nm = {m: "mini", M_: "maxi"}
     span = f"({nm[ast.unparse(sp.left)]} - {nm[ast.unparse(sp.right)]})"
     out = NS
     out += "/-- `AABB.span` (aabb.py) -/\n"
@@ -491,7 +500,10 @@ def _wrap_check(fn, arr):
     if not (isinstance(last, ast.If) and isinstance(last.test, ast.Name) and last.test.id == "return_point_cloud"):
         raise TranslateError("function does not end with `if return_point_cloud:`")
     body_src = "\n".join(ast.unparse(x) for x in last.body)
-    if f"pointcloud.vertices += list({arr})" not in body_src or "return pointcloud" not in body_src:
+    import re
+    m = re.search(r"^(\w+) = PointCloud\(\)$", body_src, re.M)          # round 4: the local holding the cloud may be renamed
+    pc = m.group(1) if m else "pointcloud"
+    if f"{pc}.vertices += list({arr})" not in body_src or f"return {pc}" not in body_src:
         raise TranslateError(f"point cloud branch does not wrap `{arr}`")
     return last
 
@@ -570,7 +582,7 @@ def site_sample_surface():
                 fidx = int_expr(_corner_gen(s.value, "faces", 3), {fvar: "f"})
                 for nm, a in zip(names, "abc"): sym.env[nm] = a
                 continue
-            if ast.unparse(s.value) == "random(2)" and len(names) == 2:
+            if ast.unparse(s.value) in ("random(2)", "np.random.random(2)") and len(names) == 2:
                 sym.env[names[0]] = "u1"; sym.env[names[1]] = "u2"; continue
             raise TranslateError(f"unrecognised tuple assignment {ast.unparse(s)}")
         v = _store_row(s, "sampled_pts", counter)
